@@ -29,6 +29,22 @@ CLAIMED = {
    "fault injection at the API seam: a table of 86 (operation, invalid-argument class) entries (DESIGN Appendix A) is injected at random points of simulated histories (empty and non-empty undo/redo lists); whenever a call returns Err the observable snapshot and the undo/redo stack lengths (hook H1) must be unchanged. Every table entry is injected and rejected many times per run of the check (counts in evidence).",
    "the table enumerates invalid-argument classes, the states they are injected in are sampled; 'unchanged' = observable snapshot of DESIGN 3 plus stack lengths",
    "deterministic simulation with fault injection: rejected calls at arbitrary points of a history, before/after comparison", "6 C04 + Appendix A"),
+ "C08": ("exploration",
+   "invariant monitor inside the simulator: after every event, on every live node (primary, followers, restarted incarnations), every NumberCell, formula value and spill value is scanned for NaN / infinity; the workload is biased to overflow (1E308, 1E-320, ^ * /, SUM, array literals and range arithmetic in scalar, CSE and dynamic form) and includes typed numbers like 1e999. What is NOT decided here: the statement's sweep of every built-in function x extreme arguments (an enumeration of a pure function table, which needs the function-enum hook and is not simulation) and numbers read from xlsx files (exercised by the C24/C25 corruption stage).",
+   "only the formula grammar of DESIGN 4.2 (operators and a 20-function whitelist) is exercised; ~475 built-in functions are never called by this check",
+   "deterministic simulation: invariant monitor over seeded histories biased to overflow", "6 C08"),
+ "C26": ("exploration",
+   "storage seam of the internal format: Save, clean Restart (to_bytes -> from_bytes -> evaluate, new incarnation with another hash seed, undo history and queue lost) and dirty Restart (crash: load the last saved bytes) are events of simulated histories; at every Save the bitcode decoding of to_bytes() must equal the workbook field by field; after a clean restart the observable snapshot must equal the one before it, after a dirty restart the one taken at the Save. The run continues on the restarted node.",
+   "comparisons are made on evaluated states only (a paused session has stale values by design)",
+   "deterministic simulation: restart (clean/dirty) injection at arbitrary points of seeded histories", "6 C26"),
+ "C27": ("exploration",
+   "invariant monitor: the well-formedness scan (sheet names/ids, cells in grid, style/string/formula indices, column descriptors sorted/disjoint/in grid, unique row descriptors, spill structure, defined-name scopes) runs on every live node after every event of histories that mix operations, rejected calls (C04 table), undo/redo, a follower fed by the queue, restarts and paused evaluation",
+   "spill clauses are evaluated on evaluated states only; nodes imported from corrupted xlsx packages are not monitored (the statement speaks of operations)",
+   "deterministic simulation: invariant monitor on all nodes after every event", "6 C27"),
+ "C28": ("exploration",
+   "invariant monitor on the raw view state (workbook.views / worksheet.views, not the getters that fall back to defaults) after every event of histories dense in sheet add/delete/duplicate/move/hide at every index relative to the selected one, selection and keyboard/mouse navigation, hide rows/columns, undo/redo",
+   "only view 0 exists in these sessions",
+   "deterministic simulation: invariant monitor over seeded histories of sheet and navigation events", "6 C28"),
  "C01": ("exploration",
    "seeded deterministic simulation of editing histories (swarm-selected operation families, 3-40 events, undo/redo interleaved, hash seed and clock owned by the simulator) checked event by event against a history-cursor reference model over the observable snapshot; every violation is minimised and replays from a file. Sampling, not proof.",
    "bounds of DESIGN 2.2; 'observable' = the snapshot of DESIGN 3; open genuine defects are listed in known_findings.json and reported as KNOWN-FINDING",
